@@ -846,7 +846,15 @@ class Machine(object):
       want = canon(desc["view_of"])
       for k2, d2 in self.plan["datasets"].items():
         if k2 != key and not d2.get("view_of") and canon(d2) == want:
-          return make_data(desc, live_base=self.pristine_dataset(k2))
+          # as in the live world: the view (with its labels and targets) exists
+          # first, the caller's edits of the base array come afterwards
+          base = make_data(d2)
+          Dv = make_data(desc, live_base=base)
+          for k3, mop in self.mutations:
+            if k3 == k2:
+              mutate_points(base.S, mop)
+          Dv.X = Dv.S[Dv.pidx]
+          return Dv
       return make_data(desc)
     D = make_data(desc)
     for k2, mop in self.mutations:
